@@ -213,13 +213,26 @@ reverse delta order and finishes in the order of the new paths -/
 inductive Variant where | asFound | childrenFirst
   deriving DecidableEq, Repr
 
-def createSteps (t : Tree) (p : Path) : List Step :=
+/-- which uploader is modelled: the rename discipline, and whether symlinks
+are created through `upload_symlink_robustly` everywhere with a `_force_clear`
+that also removes a regular file (`robustSymlinks = true`), or as found
+(`upload_symlink` with the raw target in incremental uploads; `_force_clear`
+leaves regular files alone).  The check probes the code under test. -/
+structure Cfg where
+  renames : Variant := .asFound
+  robustSymlinks : Bool := false
+  deriving DecidableEq, Repr
+
+def symlinkStep (c : Cfg) (p : Path) (t : String) : Step :=
+  if c.robustSymlinks then .symlinkRobust p t else .symlink p t
+
+def createSteps (c : Cfg) (t : Tree) (p : Path) : List Step :=
   match t.find p with
   | some e =>
     (match e.kind with
       | .file => [.uploadFile p p]
       | .dir => [.mkdir p]
-      | .symlink => [.symlink p e.target])
+      | .symlink => [symlinkStep c p e.target])
   | none => [.fail .treeError]
 
 def renameSteps (ign : List String) : List Renamed → Nat → List Step
@@ -230,24 +243,24 @@ def renameSteps (ign : List String) : List Renamed → Nat → List Step
       ++ Step.stage r.old k r.new :: renameSteps ign rest (k + 1)
 
 /-- `upload_tree`, after the marker has been read: the steps in code order -/
-def planInc (v : Variant) (ign : List String) (t : Tree) (d : Delta) : List Step :=
+def planInc (c : Cfg) (ign : List String) (t : Tree) (d : Delta) : List Step :=
   ((d.removed.filter (fun c => !ignored ign c.path)).map fun c =>
       match c.kind with
       | .dir => Step.rmdirMaybe c.path
       | _ => Step.delete c.path)
-  ++ renameSteps ign (match v with | .asFound => d.renamed | .childrenFirst => d.renamed.reverse) 0
+  ++ renameSteps ign (match c.renames with | .asFound => d.renamed | .childrenFirst => d.renamed.reverse) 0
   ++ [.finishRenames, .finishDeletions]
-  ++ ((d.kindChanged.filter (fun c => !ignored ign c.path)).flatMap fun c =>
-      (match c.oldKind with
-        | .dir => [Step.rmdir c.path]
-        | _ => [Step.delete c.path]) ++ createSteps t c.path)
-  ++ ((d.added.filter (fun p => !ignored ign p)).flatMap (createSteps t))
+  ++ ((d.kindChanged.filter (fun k => !ignored ign k.path)).flatMap fun k =>
+      (match k.oldKind with
+        | .dir => [Step.rmdir k.path]
+        | _ => [Step.delete k.path]) ++ createSteps c t k.path)
+  ++ ((d.added.filter (fun p => !ignored ign p)).flatMap (createSteps c t))
   ++ ((d.modified.filter (fun p => !ignored ign p)).flatMap fun p =>
       match t.find p with
       | some e =>
         (match e.kind with
           | .file => [Step.uploadFile p p]
-          | .symlink => [Step.symlink p e.target]
+          | .symlink => [symlinkStep c p e.target]
           | .dir => [Step.fail .notImplemented])
       | none => [Step.fail .treeError])
 
@@ -271,18 +284,18 @@ def doUploadFile (t : Tree) (root : Node) (dst src : Path) : Except Err Node :=
   | some e =>
     (match e.kind with
       | .file => tPut root dst e.content e.exec
-      -- the text of a symlink is empty
-      | .symlink => tPut root dst "" false
-      | .dir => .error .treeError)
+      -- `get_file_text` of a symlink or a directory is empty
+      | _ => tPut root dst "" false)
   | none => .error .treeError
 
 /-- `_force_clear`: a directory is removed recursively, a symlink deleted, a
 file left alone; a missing path (any `PathError`) is fine -/
-def forceClear (root : Node) (p : Path) : Except Err Node :=
+def forceClear (c : Cfg) (root : Node) (p : Path) : Except Err Node :=
   match lookup root p with
   | some (.dir _) => tDeleteTree root p
   | some (.link _) => tDelete root p
-  | _ => .ok root
+  | some (.file _ _) => if c.robustSymlinks then tDelete root p else .ok root
+  | none => .ok root
 
 /-- `Transport.symlink(target, p)` of the local transport: the target (a plain
 name here) is resolved against the transport root and must lie below the
@@ -296,69 +309,80 @@ def insertByNew : (Nat × Path) → List (Nat × Path) → List (Nat × Path)
 
 def sortByNew (l : List (Nat × Path)) : List (Nat × Path) := l.foldr insertByNew []
 
-def finishRen (root : Node) : List (Nat × Path) → Except Err Node
-  | [] => .ok root
+/-- `finish_renames`: stops at the first failure, keeping what was done -/
+def finishRen (root : Node) : List (Nat × Path) → Node × Option Err
+  | [] => (root, none)
   | (k, new) :: rest =>
     match tRename root (stamp k) new with
     | .ok r => finishRen r rest
-    | .error e => .error e
+    | .error e => (root, some e)
 
-def finishDel (root : Node) : List Path → Except Err Node
-  | [] => .ok root
+/-- `finish_deletions` -/
+def finishDel (root : Node) : List Path → Node × Option Err
+  | [] => (root, none)
   | p :: rest =>
     match tRmdir root p with
     | .ok r => finishDel r rest
-    | .error e => .error e
+    | .error e => (root, some e)
 
-def exec (v : Variant) (t : Tree) (s : State) : Step → Except Err State
-  | .delete p => do pure { s with root := ← tDelete s.root p }
-  | .rmdir p => do pure { s with root := ← tRmdir s.root p }
+def lift (s : State) : Except Err Node → State × Option Err
+  | .ok r => ({ s with root := r }, none)
+  | .error e => (s, some e)
+
+/-- one step: the state reached and the error raised, if any -/
+def exec (c : Cfg) (t : Tree) (s : State) : Step → State × Option Err
+  | .delete p => lift s (tDelete s.root p)
+  | .rmdir p => lift s (tRmdir s.root p)
   | .rmdirMaybe p =>
     match tRmdir s.root p with
-    | .ok r => .ok { s with root := r }
-    | .error e => if e.isPathError then .ok { s with pendingDel := s.pendingDel ++ [p] } else .error e
-  | .uploadFile dst src => do pure { s with root := ← doUploadFile t s.root dst src }
-  | .stage old k new => do
-      let r ← tRename s.root old (stamp k)
-      pure { s with root := r, pendingRen := s.pendingRen ++ [(k, new)] }
-  | .finishRenames => do
-      let r ← finishRen s.root (match v with | .asFound => s.pendingRen | .childrenFirst => sortByNew s.pendingRen)
-      pure { s with root := r, pendingRen := [] }
-  | .finishDeletions => do
-      let r ← finishDel s.root s.pendingDel.reverse
-      pure { s with root := r, pendingDel := [] }
-  | .mkdir p => do pure { s with root := ← tMkdir s.root p }
-  | .symlink p tg => do pure { s with root := ← doSymlink s.root p tg }
-  | .fileRobust p => do
-      let r ← forceClear s.root p
-      pure { s with root := ← doUploadFile t r p p }
-  | .symlinkRobust p tg => do
-      let r ← forceClear s.root p
-      -- the full upload passes `normpath(dirname(p)/target)`, which does lie below the link's directory
-      pure { s with root := ← tSymlink r p tg }
+    | .ok r => ({ s with root := r }, none)
+    | .error e => if e.isPathError then ({ s with pendingDel := s.pendingDel ++ [p] }, none) else (s, some e)
+  | .uploadFile dst src => lift s (doUploadFile t s.root dst src)
+  | .stage old k new =>
+    match tRename s.root old (stamp k) with
+    | .ok r => ({ s with root := r, pendingRen := s.pendingRen ++ [(k, new)] }, none)
+    | .error e => (s, some e)
+  | .finishRenames =>
+    let r := finishRen s.root (match c.renames with | .asFound => s.pendingRen | .childrenFirst => sortByNew s.pendingRen)
+    ({ s with root := r.1, pendingRen := [] }, r.2)
+  | .finishDeletions =>
+    let r := finishDel s.root s.pendingDel.reverse
+    ({ s with root := r.1, pendingDel := [] }, r.2)
+  | .mkdir p => lift s (tMkdir s.root p)
+  | .symlink p tg => lift s (doSymlink s.root p tg)
+  | .fileRobust p =>
+    match forceClear c s.root p with
+    | .ok r => lift { s with root := r } (doUploadFile t r p p)
+    | .error e => (s, some e)
+  | .symlinkRobust p tg =>
+    -- the robust variant passes `normpath(dirname(p)/target)`, which does lie below the link's directory
+    match forceClear c s.root p with
+    | .ok r => lift { s with root := r } (tSymlink r p tg)
+    | .error e => (s, some e)
   | .mkdirRobust p =>
     match lookup s.root p with
-    | some (.dir _) => .ok s
-    | some _ => do
-        let r ← tDelete s.root p
-        pure { s with root := ← tMkdir r p }
-    | none => do pure { s with root := ← tMkdir s.root p }
-  | .fail e => .error e
+    | some (.dir _) => (s, none)
+    | some _ =>
+      (match tDelete s.root p with
+        | .ok r => lift { s with root := r } (tMkdir r p)
+        | .error e => (s, some e))
+    | none => lift s (tMkdir s.root p)
+  | .fail e => (s, some e)
 
 /-- run the steps; an error stops the upload where it is (nothing is undone) -/
-def run (v : Variant) (t : Tree) (s : State) : List Step → State × Option Err
+def run (c : Cfg) (t : Tree) (s : State) : List Step → State × Option Err
   | [] => (s, none)
   | st :: rest =>
-    match exec v t s st with
-    | .ok s' => run v t s' rest
-    | .error e => (s, some e)
+    match exec c t s st with
+    | (s', none) => run c t s' rest
+    | (s', some e) => (s', some e)
 
-def uploadInc (v : Variant) (ign : List String) (t : Tree) (d : Delta) (remote : Node) : Node × Option Err :=
-  let r := run v t { root := remote } (planInc v ign t d)
+def uploadInc (c : Cfg) (ign : List String) (t : Tree) (d : Delta) (remote : Node) : Node × Option Err :=
+  let r := run c t { root := remote } (planInc c ign t d)
   (r.1.root, r.2)
 
-def uploadFull (ign : List String) (t : Tree) (remote : Node) : Node × Option Err :=
-  let r := run .asFound t { root := remote } (planFull ign t)
+def uploadFull (c : Cfg) (ign : List String) (t : Tree) (remote : Node) : Node × Option Err :=
+  let r := run c t { root := remote } (planFull ign t)
   (r.1.root, r.2)
 
 /-- the paths a step addresses on the remote side -/
